@@ -157,15 +157,24 @@ MemApiVerdict(e, pre, post) ==
       expout == IF x1.ni # "" THEN "notimpl" ELSE IF x1.ab.t = "dabort" THEN "dabort" ELSE "completed"
       r == Result(x1.s, expout, TRUE, "memapi:" \o a.n, x1, FALSE, pre)
       pa == IF a.n = "Translate" /\ Ok(x1) THEN Translate(x0, a.addr, a.priv, a.iswrite, a.size, a.aligned) ELSE [pa |-> Zero, ext |-> 0]
+      \* memory attributes / NS of the returned address descriptor (e.attrs = [ty, ia, ih, oa, oh, sh, osh, ns] as recorded):
+      \* one clause per field the specification claims (attr.<field>)
+      ta == IF a.n = "Translate" /\ Ok(x1) /\ Has(e, "attrs") THEN TranslateAttrs(x0, a.addr, a.priv, a.iswrite, a.aligned)
+            ELSE [at |-> AttrUnknown, ns |-> 2]
+      attrbad == IF a.n = "Translate" /\ Has(e, "attrs") /\ expout = "completed" /\ e.out = "completed"
+                 THEN SelectSeq(<<"ty", "ia", "ih", "oa", "oh", "sh", "osh">>, LAMBDA f : f \notin ta.at.dc /\ e.attrs[f] # ta.at.a[f])
+                      \o (IF ta.ns # 2 /\ e.attrs.ns # ta.ns THEN <<"ns">> ELSE <<>>)
+                 ELSE <<>>
   IN IF e.out \notin {"completed", "dabort", "notimpl"} THEN [id |-> e.id, v |-> <<"hosterror">>, path |-> r.path]
      ELSE IF x1.unp THEN [id |-> e.id, v |-> <<>>, path |-> "envelope:unpredictable:" \o a.n]
      ELSE IF expout = "notimpl" THEN [id |-> e.id, v |-> IF e.out = "notimpl" THEN <<>> ELSE <<"outcome">>, path |-> "notimpl:" \o x1.ni]
-     ELSE [id |-> e.id, path |-> r.path,
+     ELSE [id |-> e.id, path |-> r.path \o (IF a.n = "Translate" /\ Has(e, "attrs") /\ expout = "completed" /\ "ty" \notin ta.at.dc THEN ":attrs" ELSE ""),
            v |-> (IF e.out # expout THEN <<"outcome">> ELSE <<>>) \o StateDiffN(x1.s, post, r, Len(pre.mem.w)) \o
                  (IF osys # <<>> THEN <<"sys.other">> ELSE <<>>) \o
                  (IF isget /\ expout = "completed" /\ e.out = "completed" /\ e.res # rd.v THEN <<"value">> ELSE <<>>) \o
                  (IF a.n = "Translate" /\ expout = "completed" /\ e.out = "completed" /\ (e.res # <<pa.ext, pa.pa>>)
-                  THEN <<"paddress">> ELSE <<>>)]
+                  THEN <<"paddress">> ELSE <<>>) \o
+                 [k \in 1..Len(attrbad) |-> "attr." \o attrbad[k]]]
 
 \* direct calls of Registers.cpsr_write_by_instr / spsr_write_by_instr (C12): act = [n, val, mask, ret]
 PsrApiVerdict(e, pre, post) ==
